@@ -54,24 +54,8 @@ func c12(c *Check) {
 	}
 	threeWay("x/aggregate.InitGenesis", pairAddr)
 	// UpdateTokenPairERC20: delete-all then re-index everything, new address = parameter
-	upd := c.F(agK + "Keeper.UpdateTokenPairERC20")
 	threeWay(agK+"Keeper.UpdateTokenPairERC20", func(string) []string { return []string{"$3"} })
-	dels := c.Calls(upd, "keeper.(Keeper).DeleteTokenPair")
-	setsU := c.Calls(upd, "keeper.(Keeper).SetTokenPair")
-	if c.Req(len(dels) == 1 && len(setsU) == 1, "C12/three-way-write", funcName(upd)+"/delete-then-set", upd.Pos(), "", "UpdateTokenPairERC20 must delete the old pair once and store the new one once") {
-		var addrStore ssa.Instruction
-		for _, b := range upd.Blocks {
-			for _, ins := range b.Instrs {
-				if st, ok := ins.(*ssa.Store); ok {
-					if fa, ok := st.Addr.(*ssa.FieldAddr); ok && derefStruct(fa.X.Type()).Field(fa.Field).Name() == "ERC20Address" {
-						addrStore = st
-					}
-				}
-			}
-		}
-		ok := addrStore != nil && before(dels[0].Ins, addrStore) && before(addrStore, setsU[0].Ins)
-		c.Req(ok, "C12/three-way-write", funcName(upd)+"/old indexes removed before the address changes", dels[0].Ins.Pos(), "DeleteTokenPair(old) → pair.ERC20Address = new → SetTokenPair", "the old pair's index entries are not removed before the address (and id) change")
-	}
+	updateDeletesBeforeAddressChange(c, "C12/three-way-write")
 	// AddCoin
 	add := c.F(agK + "Keeper.AddCoin")
 	am := Macros{"P": "cell<aggregate/keeper.(Keeper).GetTokenPair($0, $1, aggregate/keeper.(Keeper).GetERC20Map($0, $1, go-ethereum/common.HexToAddress($3)))#0 | aggregate/types.TokenPair{Denoms: append(aggregate/keeper.(Keeper).GetTokenPair($0, $1, aggregate/keeper.(Keeper).GetERC20Map($0, $1, go-ethereum/common.HexToAddress($3)))#0.Denoms, [$2.Base])}>"}
@@ -360,4 +344,27 @@ func registeredTestsReadOwnIndex(c *Check, rule string) {
 		Returns: []Ret{{Label: "has(by-denom index, denom)", Index: 0, Want: []string{"store/prefix.(Store).Has(" + fmt.Sprintf(ks, "KeyPrefixTokenPairByDenom") + ", $2)"}}}})
 	c.Spec(rule, Macros{}, FnSpec{Fn: agK + "Keeper.IsERC20Registered",
 		Returns: []Ret{{Label: "has(by-contract index, address bytes)", Index: 0, Want: []string{"store/prefix.(Store).Has(" + fmt.Sprintf(ks, "KeyPrefixTokenPairByERC20") + ", go-ethereum/common.(Address).Bytes($2))"}}}})
+}
+
+// updateDeletesBeforeAddressChange: UpdateTokenPairERC20 removes the old record and indexes before the address (and with
+// it the id) changes, then stores the new pair (also armed for C13: otherwise two records share the denominations and the
+// exported registry does not validate).
+func updateDeletesBeforeAddressChange(c *Check, rule string) {
+	upd := c.F(agK + "Keeper.UpdateTokenPairERC20")
+	dels := c.Calls(upd, "keeper.(Keeper).DeleteTokenPair")
+	setsU := c.Calls(upd, "keeper.(Keeper).SetTokenPair")
+	if c.Req(len(dels) == 1 && len(setsU) == 1, rule, funcName(upd)+"/delete-then-set", upd.Pos(), "", "UpdateTokenPairERC20 must delete the old pair once and store the new one once") {
+		var addrStore ssa.Instruction
+		for _, b := range upd.Blocks {
+			for _, ins := range b.Instrs {
+				if st, ok := ins.(*ssa.Store); ok {
+					if fa, ok := st.Addr.(*ssa.FieldAddr); ok && derefStruct(fa.X.Type()).Field(fa.Field).Name() == "ERC20Address" {
+						addrStore = st
+					}
+				}
+			}
+		}
+		ok := addrStore != nil && before(dels[0].Ins, addrStore) && before(addrStore, setsU[0].Ins)
+		c.Req(ok, rule, funcName(upd)+"/old indexes removed before the address changes", dels[0].Ins.Pos(), "DeleteTokenPair(old) → pair.ERC20Address = new → SetTokenPair", "the old pair's index entries are not removed before the address (and id) change")
+	}
 }
